@@ -316,11 +316,6 @@ func init() {
 			}
 			f.nat("BigIntPadWidth", w)
 		}
-		f.nat("BlockTypeGenesisReceive", nom.BlockTypeGenesisReceive)
-		f.nat("BlockTypeUserSend", nom.BlockTypeUserSend)
-		f.nat("BlockTypeUserReceive", nom.BlockTypeUserReceive)
-		f.nat("BlockTypeContractSend", nom.BlockTypeContractSend)
-		f.nat("BlockTypeContractReceive", nom.BlockTypeContractReceive)
 
 		// verifier/account_block.go amounts(): negative send amounts rejected, BitLen() bound
 		verPkg, err := parsePkgDir(filepath.Join(repo, "verifier"))
